@@ -1,6 +1,7 @@
 import Rustemo.Model.Dump
 import Rustemo.Model.Print
 import Rustemo.Model.LayoutCert
+import Rustemo.Model.CertTerm
 /-!
 Driver command `layoutcert` (property C14, Layout-rule round trip).
 
@@ -25,7 +26,10 @@ def envOf (d : Dump) (input : List Nat) (m : Nat → Nat → Option Nat) : Env :
     grammarOrder := d.settings.grammarOrder }
 
 /-- the fuel of the `lr` command of `Main.lean` -/
-def fuelOf (input : List Nat) : Nat := 2000 + 200 * input.length
+def fuelOf (d : Dump) (input : List Nat) : Nat :=
+  if Cert.terminating d.grammar d.table then
+    max (2000 + 200 * input.length) (Cert.termBound d.grammar d.table input.length)
+  else 2000 + 200 * input.length
 
 def bit (b : Bool) : String := if b then "1" else "0"
 
@@ -36,7 +40,7 @@ def handleLayoutCert (d : Dump) (rest : String) : String :=
     | [inp] =>
       let input := unhexBytes inp
       let env := envOf d input (parseMatrix mat)
-      let fuel := fuelOf input
+      let fuel := fuelOf d input
       match d.table.layoutState with
       | none => "layoutcert none"
       | some ls =>
